@@ -429,9 +429,9 @@ def run_midframe_timeout(target: str) -> dict:
         else:
             send = pc.end.send
         send(enc(b'\x40\x00\x00\x00\x01\x00\x00\x00\x05', obf)[: (12 if obf else 9)])
-        # every frame the library itself sends on the connection moves its read deadline by one read time-out (60 s):
-    # leave room for the handful of frames sent on a fresh connection (branch level / root to a new child)
-    rig.world.horizon = rig.world.now() + (700 if target == 'server' else 400)
+            # every frame the library itself sends on the connection moves its read deadline by one read time-out (60 s):
+        # leave room for the handful of frames sent on a fresh connection (branch level / root to a new child)
+        rig.world.horizon = rig.world.now() + (700 if target == 'server' else 400)
         rig.world.run()
         if conn.state != ConnectionState.CLOSED:
             viols.append(Violation('midframe-hang', f"{target}: connection still {conn.state.name} after the read time-out",
